@@ -386,6 +386,82 @@ async fn open_n<const N: usize>(cfg: &Cfg, dir: &Path, lazy: bool) -> Result<Box
     Ok(Box::new(S::<N>(s)))
 }
 
+/// What happened to an `init` future that was polled a few times and dropped
+#[derive(Clone, Debug, Default)]
+pub struct InitCancel {
+    /// the future was still pending when it was dropped
+    pub dropped_pending: bool,
+    pub polls: usize,
+    /// permits of the (one-permit) dump semaphore once everything the dropped future had started was finished
+    pub permits_after_drop: usize,
+}
+
+async fn open_cancel_n<const N: usize>(cfg: &Cfg, dir: &Path, lazy: bool, k: usize, sem: std::sync::Arc<tokio::sync::Semaphore>, group: &std::sync::atomic::AtomicI64) -> Result<(Box<dyn Sut>, InitCancel)> {
+    use std::sync::atomic::Ordering::SeqCst;
+    let initial = sem.available_permits();
+    let mut s: Storage<ArrayKey<N>> = cfg.builder(dir).set_dump_sem(sem.clone()).build()?;
+    let mut info = InitCancel::default();
+    let mut done: Option<Result<()>> = None;
+    {
+        let mut fut = Box::pin(async {
+            if lazy {
+                s.init_lazy().await
+            } else {
+                s.init().await
+            }
+        });
+        for _ in 0..=k {
+            info.polls += 1;
+            match futures::poll!(fut.as_mut()) {
+                std::task::Poll::Ready(r) => {
+                    done = Some(r);
+                    break;
+                }
+                std::task::Poll::Pending => tokio::time::sleep(Duration::from_micros(200)).await,
+            }
+        }
+        drop(fut);
+    }
+    match done {
+        Some(Ok(())) => {
+            info.permits_after_drop = initial;
+            return Ok((Box::new(S::<N>(s)), info));
+        }
+        Some(Err(e)) => return Err(e),
+        None => info.dropped_pending = true,
+    }
+    // what the dropped future left in the blocking pool finishes; a permit still missing afterwards is gone for good
+    let t0 = std::time::Instant::now();
+    loop {
+        info.permits_after_drop = sem.available_permits();
+        if (group.load(SeqCst) <= 0 && info.permits_after_drop == initial) || t0.elapsed() > Duration::from_secs(5) {
+            break;
+        }
+        tokio::time::sleep(Duration::from_micros(300)).await;
+    }
+    if info.permits_after_drop != initial {
+        // the next init would wait for the permit for ever: do not try
+        return Ok((Box::new(S::<N>(s)), info));
+    }
+    if lazy {
+        s.init_lazy().await?;
+    } else {
+        s.init().await?;
+    }
+    Ok((Box::new(S::<N>(s)), info))
+}
+
+/// Builds a storage on `dir` with its own one-permit dump semaphore, polls `init` at most `k + 1` times, drops it if it is
+/// still pending, and initialises the same object again (unless the permit is gone)
+pub async fn open_cancel_init(cfg: &Cfg, dir: &Path, lazy: bool, k: usize, group: &std::sync::atomic::AtomicI64) -> Result<(Box<dyn Sut>, InitCancel)> {
+    let sem = std::sync::Arc::new(tokio::sync::Semaphore::new(1));
+    match cfg.keylen {
+        8 => open_cancel_n::<8>(cfg, dir, lazy, k, sem, group).await,
+        33 => open_cancel_n::<33>(cfg, dir, lazy, k, sem, group).await,
+        n => Err(anyhow!("unsupported key length {}", n)),
+    }
+}
+
 /// Builds and initialises a storage on `dir`
 pub async fn open(cfg: &Cfg, dir: &Path, lazy: bool) -> Result<Box<dyn Sut>> {
     match cfg.keylen {
